@@ -91,7 +91,7 @@ class GroupBy:
 
         for record in self._dictset:
             # Create a unique hash for each group
-            group_key = hash(tuple(record[col] for col in group_column_indicies))
+            group_key = tuple(record[col] for col in group_column_indicies)
 
             if group_key not in self._group_keys:
                 self._group_keys[group_key] = [
